@@ -175,7 +175,9 @@ def plan(prop, tier):
         return {'stages': group_stages(2 if q else 3, 'C13', 0.5 if q else 0.25) + [gogen('bytes', 60 if q else 1500, fam='group', trace='Trace_Group')],
                 'rule': RULE_GROUP, 'assumptions': ASSUME_COMMON}
     if prop == 'C16':
-        return {'stages': group_stages(2, 'C16', 0.08 if q else 0.5)[:3], 'rule': RULE_GROUP, 'assumptions': ASSUME_COMMON}
+        st = group_stages(2, 'C16', 0.08 if q else 0.5)
+        deep16 = dict(st[3], name='grpdeep16', consts=dict(st[3]['consts'], Alphas='{"deep16"}'))
+        return {'stages': st[:3] + [deep16, conc_stage('c07quiet', 6, 2 if q else 20, 3, 10 if q else 30, 1)], 'rule': RULE_GROUP, 'assumptions': ASSUME_COMMON}
     if prop in ('C11', 'C12'):
         return {'stages': cors_stages(0.2 if q else 1.0, 0) + [gogen('rand', 150 if q else 3000, fam='cors')], 'rule': RULE_CORS, 'assumptions': ASSUME_COMMON}
     if prop == 'C08':
